@@ -524,6 +524,10 @@ func init() {
 		}
 		return []Value{d}
 	}
+	// stack traces carry goroutine ids, addresses and build paths: a runtime oracle, fresh at every call
+	models["runtime/debug.Stack"] = func(e *Exec, a []Value) []Value {
+		return []Value{&SliceV{Op: e.fresh("oracle.debug.Stack", BytesSort)}}
+	}
 	// telemetry is unobservable
 	models["github.com/cosmos/cosmos-sdk/telemetry.ModuleMeasureSince"] = func(e *Exec, a []Value) []Value { return nil }
 }
